@@ -63,6 +63,13 @@ mpz_miller_rabin (mpz_srcptr n, int reps, gmp_randstate_t rnd)
   unsigned long int k;
   int is_prime;
   TMP_DECL;
+
+  /* The Fermat base 210 = 2*3*5*7 used below is a multiple of the primes 2,
+     3, 5 and 7, and the random bases are drawn from [2, n-2]: decide n <= 7
+     directly.  */
+  if (mpz_cmp_ui (n, 7L) <= 0)
+    return SIZ (n) > 0 && ((0xAC >> PTR (n)[0]) & 1);
+
   TMP_MARK;
 
   MPZ_TMP_INIT (nm1, SIZ (n) + 1);
